@@ -62,7 +62,7 @@ def behaviour(draw, typ, n_ent, rt=False):
 def scenarios(draw, max_sims=5, min_sims=1, types=TYPES, allow_mem=True, allow_weak=True,
               allow_groups=True, max_until=8, debug_ok=True, sensitive=False, max_conns=8,
               lazy=None, cache=None, future_ok=True, allow_sync=True, parallel=True, late_initial=True,
-              script_ok=True):
+              script_ok=True, allow_async=True):
     n = draw(st.integers(min_sims, max_sims))
     sids = [f"S{i}" for i in range(n)]
     paths = {}
@@ -157,12 +157,25 @@ def scenarios(draw, max_sims=5, min_sims=1, types=TYPES, allow_mem=True, allow_w
         elif typ[s] != "event-based" and late_initial and draw(st.integers(0, 7)) == 0:
             # accepted by the API although only documented for event-based simulators: the first step moves
             ie[s] = draw(st.sampled_from([0, 1, 2, 3]))
+    # async_requests on the call of an existing data-flow (the destination may then use set_data / get_data towards
+    # the source; the source has to wait for it): only the flag, the scripted simulators issue no such requests here
+    asyncs = []
+    if allow_async and conns and draw(st.integers(0, 5)) == 0:
+        cands = [c_ for c_ in conns if c_["src"] != c_["dst"]]
+        if cands:
+            ca = cands[draw(st.integers(0, len(cands) - 1))]
+            if [ca["src"], ca["dst"]] not in asyncs and not any(
+                    c_.get("async") for c_ in conns if (c_["src"], c_["dst"]) == (ca["src"], ca["dst"])):
+                ca["async"] = True
+                asyncs.append([ca["src"], ca["dst"]])
     until = draw(st.integers(1, max_until))
     scn = {
         "tree": tree, "sims": sims, "conns": conns, "initial_events": ie, "until": until,
         "world": {"cache": draw(st.booleans()) if cache is None else cache},
         "run": {"lazy_stepping": draw(st.booleans()) if lazy is None else lazy},
     }
+    if asyncs:
+        scn["async"] = asyncs
     if debug_ok and draw(st.integers(0, 7)) == 0:
         scn["world"]["debug"] = True
     if script_ok:
@@ -363,6 +376,17 @@ def micro_scenarios():
         "conns": [_c("S", "eo", "R", "ti"), _c("R", "eo", "S", "ti", weak=True), _c("S", "eo", "T", "mi"),
                   _c("O", "po", "T", "mi"), _c("S", "eo", "O", "mi")],
         "initial_events": {"S": 0}, "until": 3}
+    # async_requests towards a member of a same-time loop's group: S (in the loop S <-> R) must wait for T because of
+    # the async_requests flag, T also waits for an outside O that reads S.  Found by a sub-agent's fuzzer on the
+    # unchanged tree (F24): S at sub-step (t,1) waited for T to reach (t,1), T waited for O, O for S's time step
+    out["async_requests_inside_same_time_loop"] = {
+        "tree": ["O", ["S", "R", "T"]],
+        "sims": [_sim("O", "event-based", emit=[1]), _sim("S", "event-based", emit=[1], budget=2),
+                 _sim("R", "event-based", emit=[1], budget=2), _sim("T", "event-based", emit=[0])],
+        "conns": [_c("S", "eo", "R", "ti"), _c("R", "eo", "S", "ti", weak=True),
+                  dict(_c("S", "eo", "T", "ti"), **{"async": True}), _c("O", "eo", "T", "ti"), _c("S", "eo", "O", "ti")],
+        "async": [["S", "T"]],
+        "initial_events": {"S": 0}, "until": 2}
     # value shapes: measurements that are falsy JSON values (an explicit None, 0, "", False, [], {}) between ordinary
     # ones, read by a faster and a slower consumer
     out["falsy_measurements"] = {
